@@ -27,7 +27,7 @@ fn spec(t: Tier) -> Spec {
     Spec {
         id: "C07",
         level: "exploration",
-        rule: format!("every name of <= {} characters over {:?} (except . and ..) is created as a file (t/f/NAME), as a directory holding another such name (t/d/NAME/NEXT), and used as a starting point (as given, and for directories respelled NAME/, NAME//, NAME/., ./NAME, .//NAME/ under -P, -H and -L (printed as given, the entry below joined with exactly one more '/' unless the spelling already ends in one); the starting-point lists also go through the real pipeline); find_main's -print0 and -print output must be, byte for byte, the starting point as given + '/'-joined names + one delimiter per entry and nothing else (reference list built from the names, sequence under -sorted); the same tree goes through a real `find -print0 | xargs -0 vrec LOG` pipeline and the recorder's argv must be that list exactly, each path once; extra slices: a path with a newline followed by >1024 bytes through real stdout (pipe and file), a listing arranged so that a multi-byte character straddles the 8192-byte buffer refill of xargs -0, and listings of 2500 entries arranged so that a NUL is exactly the last byte of a full 8192-byte buffer / the first byte of the next (pipeline and regular file); non-trivial = name containing a character other than 'a' and '.'", maxlen(t), ALPHA),
+        rule: format!("every name of <= {} characters over {:?} (except . and ..) is created as a file (t/f/NAME), as a directory holding another such name (t/d/NAME/NEXT), and used as a starting point (as given, and for directories respelled NAME/, NAME//, NAME/., ./NAME, .//NAME/ under -P, -H and -L (printed as given, the entry below joined with exactly one more '/' unless the spelling already ends in one); the starting-point lists also go through the real pipeline); find_main's -print0 and -print output must be, byte for byte, the starting point as given + '/'-joined names + one delimiter per entry and nothing else (reference list built from the names, sequence under -sorted); the same tree goes through a real `find -print0 | xargs -0 vrec LOG` pipeline and the recorder's argv must be that list exactly, each path once; failing-command slice: the same pipeline with -n 3 and the recorder exiting 1, 125, 126, 127, 130, 254 on its first batches — every path is still delivered; extra slices: a path with a newline followed by >1024 bytes through real stdout (pipe and file), a listing arranged so that a multi-byte character straddles the 8192-byte buffer refill of xargs -0, and listings of 2500 entries arranged so that a NUL is exactly the last byte of a full 8192-byte buffer / the first byte of the next (pipeline and regular file); non-trivial = name containing a character other than 'a' and '.'", maxlen(t), ALPHA),
         bound: json!({"max_name_len": maxlen(t), "alphabet": ALPHA}),
         assumptions: vec!["names are valid UTF-8 (the statement's scope); tmpfs".into()],
         shards: 0,
@@ -256,6 +256,9 @@ fn run(ctx: &mut Ctx) {
     if ctx.shard == 2 % ctx.nshards {
         delimiter_at_edge_listing(ctx);
     }
+    if ctx.shard == 3 % ctx.nshards {
+        failing_command_slice(ctx);
+    }
     crate::sandbox::clear_dir(&sbx);
 }
 
@@ -371,6 +374,46 @@ fn delimiter_at_edge_listing(ctx: &mut Ctx) {
         }
     }
     ctx.rep.machinery("could not arrange a delimiter exactly at an 8192-byte boundary".into());
+}
+
+/// "delivers every matched path to CMD exactly once" also when CMD fails on some batches: with
+/// -n 3 and the recorder exiting 1, 125, 126, 127, 130 or 254 on the first batches every path must
+/// still be delivered (only 255 and signals stop xargs); the pipeline's statuses are not judged here.
+fn failing_command_slice(ctx: &mut Ctx) {
+    let sbx = ctx.sbx.clone();
+    crate::sandbox::clear_dir(&sbx);
+    std::fs::create_dir(sbx.join("q")).unwrap();
+    let names: Vec<String> = (0..25).map(|i| format!("n {i:02}\n'x")).collect();
+    for n in &names {
+        std::fs::write(sbx.join("q").join(osn(n)), b"").unwrap();
+    }
+    let mut exp = vec!["q".to_string()];
+    for n in sorted_bytes(&names) {
+        exp.push(format!("q/{n}"));
+    }
+    let vrec = crate::engine::self_bin_dir().join("vrec");
+    let log = sbx.join(".mc-vrec.log");
+    for script in ["1,0,1", "125", "126,0,0,127", "130,130", "0,254,0", "2,3,4,5,6,7,8,9"] {
+        let _ = std::fs::remove_file(&log);
+        let a1: Vec<&OsStr> = ["q", "-sorted", "-print0"].iter().map(OsStr::new).collect();
+        let a2: Vec<&OsStr> = vec![OsStr::new("-0"), OsStr::new("-n"), OsStr::new("3"), vrec.as_os_str(), log.as_os_str()];
+        let (f, x) = binrun::pipeline(&binrun::repo_bin("find"), &a1, &binrun::repo_bin("xargs"), &a2, &sbx, &[("VREC_OUTCOMES".into(), script.into())]);
+        let got: Vec<Vec<u8>> = crate::vreclog::read(&log).unwrap_or_default().into_iter().flat_map(|r| r.args).collect();
+        let want: Vec<Vec<u8>> = exp.iter().map(|s| s.as_bytes().to_vec()).collect();
+        ctx.rep.evaluations += 1;
+        ctx.rep.nontrivial += 1;
+        ctx.rep.count("failing_command_pipelines", 1);
+        if got != want || f.code != Some(0) {
+            ctx.rep.violation(
+                "C07 paths are not all delivered when the command fails on an earlier batch (exit status other than 255)",
+                format!("find q -sorted -print0 | VREC_OUTCOMES={script} xargs -0 -n 3 CMD: {} of {} paths delivered; find status {:?}, xargs status {:?} stderr {:?}", got.len(), want.len(), f.code, x.code, show(&x.err)),
+                json!({"prop":"C07","kind":"pipeline","what":"failing command"}),
+            );
+        } else {
+            ctx.rep.traces_validated += 1;
+        }
+    }
+    let _ = std::fs::remove_file(&log);
 }
 
 fn buffer_edge_listing(ctx: &mut Ctx) {
